@@ -152,10 +152,11 @@ def run_case(spec):
     # containers
     lst = list(VALUES)
     arr = np.array(VALUES)
-    dct = {"n%d" % i: v for i, v in enumerate(VALUES)}
+    dct = {"n%d" % (len(VALUES) - i): v for i, v in enumerate(VALUES)}          # keys in descending order
+    dint = {(7 * i + 3) % 11: v for i, v in enumerate(VALUES)}                   # integer keys in no order
     for name, fn in (("to_si", to), ("from_si", fr)):
         scal = [float(fn(v)) for v in VALUES]
-        for cname, cont in (("list", lst), ("ndarray", arr), ("dict", dct), ("intlist", [0, 1, 3])):
+        for cname, cont in (("list", lst), ("ndarray", arr), ("dict", dct), ("dict-intkeys", dint), ("intlist", [0, 1, 3])):
             n += 1
             try:
                 out = fn(cont)
@@ -168,12 +169,12 @@ def run_case(spec):
             elif cname == "ndarray":
                 ok = isinstance(out, np.ndarray) and out.shape == arr.shape and all(close(float(o), e) for o, e in zip(out, scal))
             else:
-                ok = isinstance(out, dict) and list(out.keys()) == list(dct.keys()) and \
-                    all(close(float(out[k]), e) for k, e in zip(dct, scal))
+                ok = isinstance(out, dict) and set(out.keys()) == set(cont.keys()) and \
+                    all(close(float(out[k]), e) for k, e in zip(cont, scal))
             if not ok:
                 bad("container-%s" % cname, "%s(%s) returned %r" % (name, cname, out))
         # the inputs must not be modified in place
-        if lst != VALUES or list(arr) != VALUES or list(dct.values()) != VALUES:
+        if lst != VALUES or list(arr) != VALUES or list(dct.values()) != VALUES or list(dint.values()) != VALUES:
             bad("inplace", "%s modified its argument" % name)
     nontrivial = (fref is not None and fref != 1.0) or (fref is None)
     return {"viol": viol, "nontrivial": nontrivial, "outcome": "%.6g" % f, "counts": {"comparisons": n}}
